@@ -388,8 +388,9 @@ def threads_units(thorough):
                 for warm in (False, True):
                     if len(graphs) == 3 and (warm or cap == 1) and not thorough:
                         continue
-                    # two preemptions for the two-worker units on the default text (thorough); one everywhere else
-                    b2 = thorough and len(graphs) == 2 and text == "apple"
+                    # two preemptions for the pre-warmed two-worker units on the default text (thorough; ~15k schedules each);
+                    # one everywhere else (a fresh two-worker unit has ~900 schedules with one preemption, ~400k with two)
+                    b2 = thorough and len(graphs) == 2 and text == "apple" and warm
                     units.append({"stage": "t1", "graphs": graphs, "text": text, "cap": cap, "warm": warm, "bound": 2 if b2 else 1})
     if thorough:
         # capacity == fan-out, both entries cached: the workers' hits touch the LRU recency order; the follow-up call adds a
@@ -728,7 +729,7 @@ def run(run):
                 "non-trivial = >=2 turns; outcomes = distinct reference digests" % (len(cfgs), seeds, clocks, dates, tzs))
     run.assume("hash seeds: a fixed list plus 1000+VERIF_SEED, not all 2^32")
     run.assume("thread timing: the T1 / T2 stage pools are explored under the baton scheduler (2-3 workers, every schedule with <= 1 preemption, "
-               "<= 2 for two-worker T1 units in the thorough tier; scheduling points = line events of t1.py resp. t2/parallel.py + memory/index.py; "
+               "<= 2 for the pre-warmed two-worker T1 units in the thorough tier; scheduling points = line events of t1.py resp. t2/parallel.py + memory/index.py; "
                "cache / store methods in other files are atomic steps); in the full-turn scenarios the pools run free; completion orders of larger pools are C09's")
     run.assume("sidecar .meta files (wall-clock created_at by design unless SOURCE_DATE_EPOCH) are not snapshot bodies and are not compared")
     run.assume("scheduler configs use quantum/wall budgets of 1e9 ms so only budget-driven yields occur; consumed.ms masked")
